@@ -235,6 +235,27 @@ impl<'a> Index<'a> {
         }
     }
 
+    /// stamp of the `<what>.begin` marker logged by the same actor right before the call whose result `e` records
+    pub fn effect_begin(&self, stamp: u64) -> u64 {
+        let e = &self.ev[stamp as usize];
+        let K::Effect { msg, actor, step, what, .. } = &e.k else { return stamp };
+        for x in self.ev[..stamp as usize].iter().rev() {
+            if let K::Effect { msg: m, actor: a, step: s, what: w, .. } = &x.k {
+                if a == actor && m == msg && s == step {
+                    if w.strip_suffix(".begin") == Some(*what) {
+                        return x.stamp;
+                    }
+                    break;
+                }
+            }
+            if x.task == e.task && !matches!(x.k, K::Effect { .. }) {
+                // something else from that task in between: not the marker of this call
+                continue;
+            }
+        }
+        stamp
+    }
+
     pub fn has_fault(&self) -> bool {
         !self.faults.is_empty()
     }
